@@ -1,9 +1,13 @@
 (* IO/AsciiProofs.v -- proofs about the OVM-ASCII models (AsciiStream.v, AsciiReaderModel.v, AsciiWriterModel.v).
-   Part 1: every extraction only consumes (the remaining input never grows), getline on a stream that stays good
-           consumes at least one character; getCleanLine and the property loop never run out of fuel.
-   Part 2: C07 totality: read_ascii is never RSpin / RUB when every allocatable count fits an int handle.
-   Part 3: C07 validity: a successful read leaves every stored handle in range and every property sized.
-   Part 4: C06: number printing/parsing, line level round trip. *)
+   Part 1: every extraction only consumes (the remaining input never grows), a stream that is not good() never becomes
+           good again, getline on a stream that stays good consumes at least one character; getCleanLine and the property
+           loop never run out of fuel.
+   Part 2: C07 totality (read_stream_safe): read_ascii is never RSpin / RUB when every allocatable count fits an int handle.
+   Part 3: C07 validity (read_stream_valid): a successful read leaves every stored handle in range and every property
+           sized; (read_stream_nodel, further down) and no entity deleted.
+   Part 4: C06: decimal printing / parsing of integers, clean lines, tokens, the four entity loops on the writer's lines,
+           read_write_topo (read (write w) returns the topology and the reparsed positions of w) and read_write_twice (the
+           second round trip changes nothing); deser_map_loop_cap (the capped map loop is the literal loop). *)
 From Coq Require Import ZArith Lia List Bool String Ascii.
 From OVM Require Import Kernel.Ops Kernel.Construct Mesh.HexModel.
 From OVM Require Import IO.AsciiStream IO.AsciiReaderModel IO.AsciiWriterModel.
